@@ -146,6 +146,11 @@ class JSONSerialization(Serialization):
             return {'anyOf': [cls.class__schema(cls_) for cls_ in class_]}
         elif class_ in cls.json_schema_literal_types:
             return {'type': cls.json_schema_literal_types[class_]}
+        elif class_ is bool:
+            return {'type': 'boolean'}
+        elif class_ in (list, tuple):
+            # Sequences are serialized as JSON arrays, not objects
+            return {'type': 'array'}
         elif issubclass(class_, Parameterized):
             return {'type': 'object', 'properties': class_.param.schema(safe)}
         else:
